@@ -375,14 +375,14 @@ class ClimateNetwork(GeoNetwork):
         :return: The threshold of similarity measure, above which
                  two nodes are linked in the network.
         """
-        #  Flatten and sort correlation measure matrix
-        flat_corr = self.similarity_measure().copy()
-        flat_corr = flat_corr.flatten()
+        #  Sort the off-diagonal entries of the similarity matrix: the main
+        #  diagonal is never included in the network, whatever its values.
+        similarity = self.similarity_measure()
+        flat_corr = similarity[~np.eye(self.N, dtype=bool)]
         flat_corr.sort()
 
-        #  Get threshold, exclude the entries on the main diagonal here,
-        #  since they will not be included in the network anyways!
-        threshold = flat_corr[int((1-link_density) * (len(flat_corr)-self.N))]
+        threshold = flat_corr[min(int((1-link_density) * len(flat_corr)),
+                                  len(flat_corr) - 1)]
 
         #  Clean up
         del flat_corr
